@@ -271,6 +271,18 @@ where
     Scheduler::with_execution(f)
 }
 
+/// Returns `true` when the calling code is unwinding from a panic and there
+/// is no execution left to operate on: either the code runs after the model
+/// has been torn down (e.g. the closure of a thread that never started is
+/// dropped), or the execution has deadlocked and has no active thread.
+///
+/// Destructors of loom types use this to skip their modelled side effects
+/// instead of panicking a second time, which would abort the process.
+pub(crate) fn panicking_without_execution() -> bool {
+    std::thread::panicking()
+        && (!Scheduler::is_in_execution() || !execution(|execution| execution.threads.is_active()))
+}
+
 pub fn thread_done() {
     let locals = execution(|execution| {
         let thread = execution.threads.active_id();
